@@ -681,6 +681,18 @@ func (x *Exec) lookupPhi(fr *Frame, name string, st *State) (Val, bool) {
 
 // lookupLocal resolves a source-level local variable name to its current value.
 func (x *Exec) lookupLocal(fr *Frame, name string, st *State) (Val, bool) {
+	// 0. an address-taken variable (captured by a closure, or &v): its cell is authoritative
+	if al := allocNamed(fr, name); al != nil {
+		if pv, ok := fr.vals[al]; ok && pv.K == KPtr && pv.Ptr != nil {
+			if pv.Ptr.Local != nil {
+				if v, ok := st.cells[pv.Ptr.Local]; ok {
+					return v, true
+				}
+			} else if pv.Ptr.Heap != "" || x.P.ss.kindOf(pv.Ptr.Elem) == KOpaque {
+				return x.load(st, pv.Ptr), true
+			}
+		}
+	}
 	// 1. phi with that comment, most recently bound
 	var best ssa.Value
 	for v := range fr.vals {
@@ -734,4 +746,19 @@ func (x *Exec) lookupLocal(fr *Frame, name string, st *State) (Val, bool) {
 		return fr.vals[best], true
 	}
 	return Val{}, false
+}
+
+// allocNamed finds the allocation backing the named source variable (ssa.Alloc comment), if bound in this frame.
+func allocNamed(fr *Frame, name string) *ssa.Alloc {
+	var best *ssa.Alloc
+	for _, b := range fr.fn.Blocks {
+		for _, in := range b.Instrs {
+			if al, ok := in.(*ssa.Alloc); ok && al.Comment == name {
+				if _, bound := fr.vals[al]; bound && (best == nil || al.Pos() > best.Pos()) {
+					best = al
+				}
+			}
+		}
+	}
+	return best
 }
